@@ -35,6 +35,16 @@ Theorem C16_apply_edit_frame_bonds : forall img m e m' u v,
 Proof. exact apply_edit_frame_bonds. Qed.
 Print Assumptions C16_apply_edit_frame_bonds.
 
+(* ... and through a whole edit sequence (one product set): atoms outside the match and pairs no bond edit names are as in the reactant *)
+Theorem C16_product_frame_atoms : forall img es m m' k, apply_edits img m es = Some m' -> ~ In k img ->
+  nth_error (atoms m') k = nth_error (atoms m) k.
+Proof. exact apply_edits_frame_atoms. Qed.
+Theorem C16_product_frame_bonds : forall img es m m' u v, apply_edits img m es = Some m' ->
+  (forall e i j a b, In e es -> edit_pair e = Some (i, j) -> nth_error img i = Some a -> nth_error img j = Some b -> ~ same_pair u v a b) ->
+  bond_between m' u v = bond_between m u v.
+Proof. exact apply_edits_frame_bonds. Qed.
+Print Assumptions C16_product_frame_bonds.
+
 (* precisely the declared edit on the named pair / atom *)
 Theorem C16_break_effect : forall img m i j m', apply_edit img m (EBreak i j) = Some m' ->
   exists a b, nth_error img i = Some a /\ nth_error img j = Some b /\ bond_between m' a b = None /\ atoms m' = atoms m.
